@@ -316,11 +316,21 @@ def reorder_const_inits(fn):
     return fn
 
 
+class ExpandAugAssign(ast.NodeTransformer):
+    """`self.a += b` and `self.a = self.a + b` are the same statement for the rebinding view the comparison takes"""
+    def visit_AugAssign(self, n):
+        if isinstance(n.target, ast.Attribute) and isinstance(n.target.value, ast.Name) and n.target.value.id == 'self':
+            load = ast.Attribute(value=ast.Name(id='self', ctx=ast.Load()), attr=n.target.attr, ctx=ast.Load())
+            return ast.copy_location(ast.Assign(targets=[n.target], value=ast.BinOp(left=load, op=n.op, right=n.value)), n)
+        return n
+
+
 def normal_form(fn, dual=False, drop_self_attrs=(), abstract_slot=False, sort_init=False, keep=()):
     fn = copy.deepcopy(fn)
     fn.name = 'F'
     fn.decorator_list = []
     fn = strip_noise(fn)
+    fn = ExpandAugAssign().visit(fn)
     fn = dce(fn, drop_self_attrs)
     slots = []
     if dual:
